@@ -685,6 +685,16 @@ def mig_post(c, p):
     mk = p.called(r"PathData::(new|from_previous)$")
     if len(mk) != 1:
         return "false"
+    if mk[0][0].endswith("PathData::new"):
+        # a path built from scratch is capped by the peer's max_udp_payload_size (saturated to u16), C13
+        a = mk[0][1][2]
+        v = c.inp("*_1.%d.%d.0" % (c.field("connection/mod.rs", "Connection", "peer_params"), tp_field(c, "max_udp_payload_size")), BV64)
+        want = ite("(bvugt %s %s)" % (v, bv(65535)), bv(65535, 16), "((_ extract 15 0) %s)" % v)
+        if a[0] != "agg":
+            return "false"
+        snap = _Snap(st, mk[0][3]) if mk[0][3] is not None else st
+        conj.append(eq(c.ex.read_key(snap, a[1] + "#discr", I64).t, bv(1)))
+        conj.append(eq(c.ex.read_key(snap, a[1] + "@Some.0", ("bv", 16, False)).t, want))
     # the new path carries a fresh challenge that is still to be sent
     conj.append(eq(rd(PATH + ".%d#discr" % ch, I64), bv(1)))
     conj.append(rd(PATH + ".%d" % pend, BOOL))
@@ -710,12 +720,12 @@ def mig_post(c, p):
     return and_(*conj)
 
 
-Q(name="e2_migrate", props=["C15"], func=r"connection/mod\.rs:245:1[^>]*>::migrate$",
+Q(name="e2_migrate", props=["C15", "C13"], func=r"connection/mod\.rs:245:1[^>]*>::migrate$",
   pure=[r"PathData::new$", r"PathData::from_previous$", r"CidQueue::active$", r"Connection::pto$", r"into_inner$"],
   allowed_panics=r"expect_failed|attempt to",
   functions=["Connection::migrate"], pre=mig_pre, post=mig_post,
   bounds="every connection state and remote address; PathData::{new,from_previous} (covered by path_from_previous), pto, the RNG, timer arithmetic opaque; shared-reference arguments are read-only",
-  replay=("conn_migrate_native", lambda m: [dict(old_challenged=a, old_pending=b, v4=v) for a in (0, 1) for b in (0, 1) for v in (0, 1)]))
+  replay=("conn_migrate_native", lambda m: [dict(old_challenged=a, old_pending=b, v4=v, big_peer=g) for g in (0, 1) for a in (0, 1) for b in (0, 1) for v in (0, 1)]))
 
 
 # ------------------------------------------------------------------ C08: local close / kill - timers, state, exactly one Drained report
